@@ -3,7 +3,7 @@
    FQE's determinant convention and the qubit (ascending mode) convention, derived
    from the ladder operators of Car.v. *)
 From Coq Require Import NArith ZArith List Bool Arith Lia.
-From FQE Require Import Car Fock GaussZ Bits Addr.
+From FQE Require Import Car Fock GaussZ Bits Addr Reorder.
 Import ListNotations.
 
 (* OpenFermion mode of a spin orbital: 2 i + sigma *)
@@ -29,8 +29,15 @@ Definition encode (c : code) (d : det) : det := map (parity_in d) c.
 (* big-endian index: qubit 0 is the most significant bit *)
 Definition be_index (q : det) : N := of_bits (rev q).
 
+(* position (FQE convention: alpha block then beta block, highest orbital first) -> mode 2i+sigma *)
+Definition pi_conv (norb p : nat) : nat :=
+  if p <? norb then 2 * (norb - 1 - p) else 2 * (2 * norb - 1 - p) + 1.
+Definition det_conv (norb : nat) (a b : N) : det := rev (bits norb a) ++ rev (bits norb b).
+
+(* the export of one determinant: rebuilt in mode order by Reorder.build (whose
+   intertwining with the ladder operators is proved), then encoded *)
 Definition export_det (norb : nat) (c : code) (a b : N) : option (bool * N) :=
-  match jw_build (2 * norb) (conv_modes norb a b) with
+  match build (2 * norb) (pi_conv norb) 0 (det_conv norb a b) with
   | Some (s, d) => Some (s, be_index (encode c d))
   | None => None
   end.
